@@ -1,7 +1,7 @@
 """C08 - yymore / yyless / yyunput / yyinput edit the input stream as documented
 (DESIGN.md section 2, C08): deviation-bounded exploration of action-operation
 histories against the deque model of csrc/refscan.h."""
-from .. import regex as R, harness as H
+from .. import regex as R, harness as H, bufharness as BH
 from ..check import Check, pmap
 
 A, B, NL = R.lit('a'), R.lit('b'), R.lit(10)
@@ -91,6 +91,26 @@ def run(tier):
                 case={"cmd": v["cmd"], "viol": {k: v[k] for k in v if k not in ("spec", "tables", "cmd")}},
                 files={"s.l": v["spec"], "s_tables.h": v["tables"]})
         ck.sample({"scanner": job["groups"][0].label, "executions": sm["executions"], "ops": sm["ops"]})
+    # yyinput() across buffers (round-7 seed C08-r7m2): the buffer-history driver, where actions may call yyinput() up to k times and
+    # push an include buffer, yywrap() answers stop / new yyin / new buffer / pop back / delete + switch to a saved buffer, and the
+    # user creates, switches, flushes, restarts and scans in-memory buffers between calls.  yyinput() must deliver the next byte of
+    # the buffer that is current after yywrap() had its say, and its end-of-input value only when yywrap() said 1.
+    dev = 3 if tier == "quick" else 4
+    full = 0x1fff & ~(1 << 12)
+    bjobs = []
+    for api in ("NR", "R", "C99"):
+        for ro in ((2,) if tier == "quick" else (1, 2, None)):
+            kn = {"VF_BUDGET_DEFAULT": dev, "VF_BUDGET_TOTAL": dev, "VF_CALLMASK": full, "VF_MAX_OPS": dev, "VF_ACTION_PUSH": 1, "VF_ACTION_INPUT": 1,
+                  "VF_SAVED_SWITCH": 1}
+            if ro:
+                kn["VF_READ_ONE"] = ro
+            bjobs.append(BH.make_job(api, [None], kn, "bufinput-%s-%s" % (api, ro), options=["noyyalloc", "noyyrealloc", "noyyfree"], cdefs=["VF_LEDGER"]))
+    bt = BH.run_jobs(ck, "C08", bjobs)
+    tot["executions"] += bt["executions"]; tot["tokens"] += bt["tokens"]; tot["choice_points"] += bt["choice_points"]
+    tot["nontrivial"] += bt["nontrivial"]; tot["op_effects"] += bt["inputs"]
+    ck.cov.update(yyinput_across_buffers=dict(executions=bt["executions"], yyinput_calls=bt["inputs"], yyinput_at_end_of_all_input=bt["input_eofs"],
+                                              yywrap_calls=bt["yywraps"]))
+    ck.guard(bt["inputs"] > 1000 and bt["input_eofs"] > 100, "yyinput() across buffers hardly exercised: %s" % bt)
     ck.cov.update(states=tot["choice_points"], transitions=tot["op_effects"], traces_validated_against_impl=tot["executions"],
                   evaluations=tot["executions"], distinct_nontrivial=tot["nontrivial"], tokens_compared=tot["tokens"],
                   inputs=tot["inputs"], expected_pushback_overflows=tot["expected_fatals"], horizon_cuts=tot["horizons"],
